@@ -4,7 +4,7 @@
    Model: Msg/InitModel.v -- [msg_check_init] (the tree walk of proto.CheckInitialized: list
    elements, map values, oneof members, extensions), [msg_init_flag] (the UnmarshalInitialized flag of
    the table-driven eager decoder: requiredMask / numRequiredFields accounting, conjunction over
-   message-typed occurrences with the two quirks of the code: non-first oneof members, map entries),
+   message-typed occurrences, with the quirk of the code for map entries),
    [msg_unmarshal] / [msg_unmarshal_slow] / [msg_marshal_checked] (the AllowPartial logic of
    proto.Unmarshal / proto.Marshal), [msg_unmarshal_lazy] (lazy decoding).
 
@@ -14,8 +14,9 @@
    satisfying [msg_init_wf]:
      - field numbers identify fields; required fields are neither extensions nor oneof members
        (guaranteed by protodesc);
-     - [wf_oneof]  every message-typed oneof member is the first declared member of its oneof:
-       the faithful model REFUTES the statement otherwise (C10_fast_flag_sound_refuted_FA2, finding FA2);
+     - (finding FA2 -- a partial message in a non-first oneof member left the flag set -- was repaired in
+       the code by commit "check required fields of every message-typed oneof member on unmarshal";
+       the model follows the repaired code, C10_example_FA2_repaired replays the former witness);
      - [wf_map]    map values do not need an init check.  With message values that need one the faithful
        model refutes the statement for inputs with two value occurrences in one entry
        (C10_fast_flag_sound_refuted_FA5, finding FA5); for canonical input it holds on the
@@ -57,12 +58,6 @@ Theorem C10_fast_flag_sound_partial :
     msg_check_init S tid v = true.
 Proof. exact msg_fast_flag_sound. Qed.
 Print Assumptions C10_fast_flag_sound_partial.
-
-Theorem C10_fast_flag_sound_refuted_FA2 :
-  exists S ni bs v, msg_decode false S 100 0 bs = DOk v /\ msg_init_flag S ni 100 0 bs = DOk true /\
-                    msg_check_init S 0 v = false.
-Proof. exact msg_fast_flag_sound_refuted_FA2. Qed.
-Print Assumptions C10_fast_flag_sound_refuted_FA2.
 
 Theorem C10_fast_flag_sound_refuted_FA5 :
   exists S ni bs v, msg_decode false S 100 0 bs = DOk v /\ msg_init_flag S ni 100 0 bs = DOk true /\
@@ -125,6 +120,10 @@ Example C10_example_flag :
   msg_init_flag ex_wf (fun _ => true) 100 0 (map n2b [10; 2; 8; 1; 34; 0]) = DOk false /\
   msg_init_flag ex_wf (fun _ => true) 100 0 (map n2b [18; 0]) = DOk false.
 Proof. vm_compute. repeat split; reflexivity. Qed.
+Example C10_example_FA2_repaired :
+  msg_init_flag ex_fa2 (fun _ => true) 100 0 [n2b 18; n2b 0] = DOk false /\
+  msg_init_flag ex_fa2 (fun _ => true) 100 0 [n2b 18; n2b 2; n2b 8; n2b 1] = DOk true.
+Proof. exact msg_flag_oneof_member_FA2_repaired. Qed.
 Example C10_example_missing :
   msg_missing ex_wf 0 (VMsg [(1, [VMsg [] []])] []).
 Proof. apply C10_checkinit_exact. vm_compute. reflexivity. Qed.
